@@ -547,7 +547,7 @@ pub fn gen_message(rng: &mut Rng, o: &MsgOpts) -> Message {
     } else {
         None
     };
-    Message {
+    let mut m = Message {
         storage_header,
         header: StandardHeader {
             version: rng.below(8) as u8,
@@ -561,6 +561,75 @@ pub fn gen_message(rng: &mut Rng, o: &MsgOpts) -> Message {
         },
         extended_header,
         payload,
+    };
+    relate_fields(rng, &mut m);
+    m
+}
+
+/// Relations between fields that independent choices (almost) never produce: a 32-bit header field holding the very
+/// bytes of an id of the same message, the same id in several places, a storage header that is all zero.
+pub fn relate_fields(rng: &mut Rng, m: &mut Message) {
+    if !rng.chance(1, 12) {
+        return;
+    }
+    let as_u32 = |id: &str| -> Option<u32> {
+        let b = id.as_bytes();
+        if b.len() == 4 { Some(u32::from_be_bytes([b[0], b[1], b[2], b[3]])) } else { None }
+    };
+    match rng.below(6) {
+        0 | 1 => {
+            // session id / timestamp = the bytes of the storage (or extended-header) id; no ECU id in the header
+            let src = match (&m.storage_header, &m.extended_header) {
+                (Some(sh), _) if sh.ecu_id.len() == 4 => Some(sh.ecu_id.clone()),
+                (Some(_), _) => {
+                    if let Some(sh) = &mut m.storage_header {
+                        sh.ecu_id = "ECU1".into();
+                    }
+                    Some("ECU1".to_string())
+                }
+                (None, Some(x)) if x.application_id.len() == 4 => Some(x.application_id.clone()),
+                _ => None,
+            };
+            if let Some(v) = src.as_deref().and_then(as_u32) {
+                // (never makes the message longer: the total may sit at the 16-bit limit)
+                let had_ecu = m.header.ecu_id.take().is_some();
+                if m.header.session_id.is_some() {
+                    m.header.session_id = Some(v);
+                } else if m.header.timestamp.is_some() {
+                    m.header.timestamp = Some(v);
+                } else if had_ecu {
+                    m.header.session_id = Some(v);
+                }
+            }
+        }
+        2 => {
+            // one id everywhere
+            let id = m.storage_header.as_ref().map(|s| s.ecu_id.clone()).unwrap_or_else(|| "SAME".into());
+            if m.header.ecu_id.is_some() {
+                m.header.ecu_id = Some(id.clone());
+            }
+            if let Some(x) = &mut m.extended_header {
+                x.application_id = id.clone();
+                x.context_id = id;
+            }
+        }
+        3 | 4 => {
+            // a blank storage header (a pre-allocated or zero-filled record)
+            if let Some(sh) = &mut m.storage_header {
+                sh.timestamp = DltTimeStamp { seconds: 0, microseconds: 0 };
+                sh.ecu_id = String::new();
+            }
+        }
+        _ => {
+            // all-ones neighbours
+            if m.header.session_id.is_some() {
+                m.header.session_id = Some(u32::MAX);
+            }
+            if m.header.timestamp.is_some() {
+                m.header.timestamp = Some(u32::MAX);
+            }
+            m.header.message_counter = 0xff;
+        }
     }
 }
 
